@@ -16,7 +16,10 @@ impl Now {
         let provider = TZ_PROVIDER
             .lock()
             .map_err(|_| TemporalError::general("Unable to acquire lock"))?;
-        let timezone = timezone.unwrap_or(TimeZone::IanaIdentifier(sys::get_system_timezone()?));
+        let timezone = match timezone {
+            Some(timezone) => timezone,
+            None => TimeZone::IanaIdentifier(sys::get_system_timezone()?),
+        };
         let system_nanos = sys::get_system_nanoseconds()?;
         let epoch_nanos = EpochNanoseconds::try_from(system_nanos)?;
         Now::plain_datetime_iso_with_provider_and_system_info(epoch_nanos, timezone, &*provider)
@@ -30,7 +33,10 @@ impl Now {
         let provider = TZ_PROVIDER
             .lock()
             .map_err(|_| TemporalError::general("Unable to acquire lock"))?;
-        let timezone = timezone.unwrap_or(TimeZone::IanaIdentifier(sys::get_system_timezone()?));
+        let timezone = match timezone {
+            Some(timezone) => timezone,
+            None => TimeZone::IanaIdentifier(sys::get_system_timezone()?),
+        };
         let system_nanos = sys::get_system_nanoseconds()?;
         let epoch_nanos = EpochNanoseconds::try_from(system_nanos)?;
         Now::plain_date_iso_with_provider_and_system_info(epoch_nanos, timezone, &*provider)
@@ -44,7 +50,10 @@ impl Now {
         let provider = TZ_PROVIDER
             .lock()
             .map_err(|_| TemporalError::general("Unable to acquire lock"))?;
-        let timezone = timezone.unwrap_or(TimeZone::IanaIdentifier(sys::get_system_timezone()?));
+        let timezone = match timezone {
+            Some(timezone) => timezone,
+            None => TimeZone::IanaIdentifier(sys::get_system_timezone()?),
+        };
         let system_nanos = sys::get_system_nanoseconds()?;
         let epoch_nanos = EpochNanoseconds::try_from(system_nanos)?;
         Now::plain_time_iso_with_provider_and_system_info(epoch_nanos, timezone, &*provider)
